@@ -5,6 +5,7 @@ mod bp;
 mod cc;
 mod fuzz;
 mod memhelper;
+mod sl;
 
 fn main() {
     std::panic::set_hook(Box::new(|_| {}));
@@ -18,6 +19,8 @@ fn main() {
         let res = match mode.as_str() {
             "cc" => cc::run(&toks),
             "bp" => bp::run(&toks),
+            "sl-dump" => sl::run_dump(&toks),
+            "sl-look" => sl::run_look(&toks),
             "codeid" => fuzz::run_codeid(&toks),
             "bpfuzz" => fuzz::run_bpfuzz(&toks),
             _ => panic!("unknown mode"),
